@@ -225,7 +225,7 @@ fn worker(ctx: &Ctx, args: WorkerArgs) -> ! {
                 let class = v.class?;
                 let e = reported.entry((class.to_string(), d, v.loc.clone())).or_insert((0, usize::MAX));
                 e.0 += 1;
-                if e.0 > 40 && inp.bytes.len() >= e.1 {
+                if e.0 > 5000 && inp.bytes.len() >= e.1 {
                     return None;
                 }
                 e.1 = e.1.min(inp.bytes.len());
@@ -491,6 +491,7 @@ pub fn run(ctx: &Ctx) -> ! {
     // findings
     let tier = ctx.tier.as_str();
     let mut findings: Vec<Finding> = vec![];
+    let mut locations: BTreeMap<String, u64> = BTreeMap::new();
     let describe = |idx: u64, inp: &space::Input<'_>, what: &str| {
         let d = &DECODERS[inp.seg.decoder];
         format!(
@@ -511,6 +512,9 @@ pub fn run(ctx: &Ctx) -> ! {
         }
         let inp = sp.input(*idx);
         let loc = l["loc"].as_str().unwrap_or("");
+        if !loc.is_empty() {
+            *locations.entry(format!("{} @ {loc}", l["msg"].as_str().unwrap_or(""))).or_insert(0) += 1;
+        }
         let site = if class == "roundtrip-mismatch" { inp.seg.site.to_string() } else { site_from_location(loc).unwrap_or(inp.seg.site.to_string()) };
         let what = if loc.is_empty() { l["msg"].as_str().unwrap_or("").to_string() } else { format!("{} at {loc}", l["msg"].as_str().unwrap_or("")) };
         findings.push(Finding {
@@ -532,6 +536,9 @@ pub fn run(ctx: &Ctx) -> ! {
             replay: replay_value(DECODERS[inp.seg.decoder].name, &site, &inp.bytes, tier, Some(d.index)),
             bytes: if inp.bytes.len() <= 4096 { inp.bytes } else { vec![] },
         });
+    }
+    if !locations.is_empty() {
+        rep.extra("panic_locations", json!(locations));
     }
     // smallest input first within each key
     findings.sort_by(|a, b| (&a.key, a.bytes_len, &a.bytes).cmp(&(&b.key, b.bytes_len, &b.bytes)));
